@@ -147,7 +147,10 @@ def run(ctx):
             if d["cls"] == "required-default":
                 d["cls"] = "required-default"
     mf = multi_file_cases()
-    run_cases(ctx, cases + mf, "c04")
+    from vlib.overlay import overlay_cases
+    ov = overlay_cases("required", "c04")
+    run_cases(ctx, cases + mf + ov, "c04")
+    evaluate(ctx, ov, {"required", "valid"}, {"required": "invalid", "valid": "valid"}, "required properties")
     for c in mf:
         if not c.build_ok:
             ctx.violation("oracle", dict(c.replay_obj(), gen_err=c.gen_err, build_err=c.build_err), "multi-file case: generation failed or does not build: %s" % (c.gen_err or c.build_err)[:300])
